@@ -7,7 +7,7 @@ from fractions import Fraction
 from common import Result, pmap, compare
 
 ID = 'C07'
-COQ_FILES = ['Properties/C07.v', 'Proofs/ComparatorProofs.v']
+COQ_FILES = ['Properties/C07.v', 'Proofs/ComparatorProofs.v', 'Proofs/ComparatorOrder.v']
 TRUSTED = [
     'modelled, not verified: Python comparison of int/float (exact), of str (code-point lexicographic), of bool; '
     'the float serial of a date-time is modelled by the exact rational serial (pool date-times have exactly '
@@ -129,6 +129,13 @@ def check_pair(pair):
     conv = _impl_cmp((1, b, a))
     if conv != [lt]:
         out.append(('a<b differs from b>a', lt, conv))
+    # corollaries proved in Proofs/ComparatorOrder.v, asked of the implementation directly
+    if _impl_cmp((2, b, a)) != [eq]:
+        out.append(('a=b differs from b=a', eq, _impl_cmp((2, b, a))))
+    if _impl_cmp((4, b, a)) != [le]:
+        out.append(('a<=b differs from b>=a', le, _impl_cmp((4, b, a))))
+    if a is b and (lt, eq, gt) != (0, 1, 0):
+        out.append(('a value is not equal to itself', (0, 1, 0), (lt, eq, gt)))
     e = expected_order(a, b)
     if (lt, eq, gt) != (int(e < 0), int(e == 0), int(e > 0)):
         out.append(('order differs from number/date < text < logical with numeric / lexicographic order and blank '
